@@ -14,6 +14,7 @@ OpResult exec_ext(World &w, const Op &op) {
 
 void all_overrides(Store &st, const Fault &f) {
     if (f.kind == "OVR_FEAT") feat_override(st, f);
+    else if (f.kind == "OVR_SILF") silf_override(st, f);
     else lz4_override(st, f);      // OVR_LZ4, OVR_RELABEL5, OVR_PLAIN, OVR_FORCED
 }
 
@@ -333,6 +334,7 @@ Plan generate(const std::string &mode, u64 seed, u64 index) {
     if (mode == "conc") return gen_conc(seed);
     if (mode == "concneg") return gen_concneg(seed);
     if (mode == "fuzzreg") return gen_fuzzreg(index);
+    if (mode == "synth") return gen_synth(seed);
     Plan p; return p;
 }
 
@@ -343,7 +345,7 @@ RunResult execute(const Plan &p, bool tracing) {
     u64 s0 = g_steps;
     Hasher ph; ph.s(p.mode); g_run.log.u(ph.h);
     if (p.mode == "load") run_generic(p, "C01", false);
-    else if (p.mode == "shape" || p.mode == "fuzzreg") run_generic(p, "C02", true);
+    else if (p.mode == "shape" || p.mode == "fuzzreg" || p.mode == "synth") run_generic(p, "C02", true);
     else if (p.mode == "just") run_generic(p, "C19", false);
     else if (p.mode == "borrow" || p.mode == "sweep") run_generic(p, "C16", false);
     else if (p.mode == "hist") run_hist(p);
